@@ -55,11 +55,13 @@ SKELETONS = {
     "var-in-media": (":root {{ --c: {T0}; }}\n@media print {{ p {{ color: var(--c); background-color: {B0}; }} }}\n",
                      [dict(sel="p", text="T0", bg="B0", var="--c")]),
     "var-bg-only": (":root {{ --b: {B0}; }}\np {{ color: {T0}; background-color: var(--b); }}\n", [dict(sel="p", text="T0", bg="B0")]),
+    "uppercase-prop": ("p {{ COLOR: {T0}; }}\nq {{ Color: {T1}; BACKGROUND-COLOR: {B1}; }}\n",
+                       [dict(sel="p", text="T0", bg=None), dict(sel="q", text="T1", bg="B1")]),
     "html-color": ("html {{ color: {T0}; background-color: {B0}; }}\n", [dict(sel="html", text="T0", bg="B0")]),
 }
 
 QUICK = ["plain", "with-bg", "two-rules", "important", "repeated", "comment-other-decls", "media", "supports", "nested2", "nested3", "invalid-colour", "root-var", "html-var-bg",
-         "chained-var", "var-fallback", "var-undefined-fallback", "shared-var", "root-color", "html-color", "selector-list", "var-in-media", "var-bg-only"]
+         "chained-var", "var-fallback", "var-undefined-fallback", "shared-var", "root-color", "html-color", "selector-list", "var-in-media", "var-bg-only", "uppercase-prop"]
 
 META = dict(
     explanation=(
@@ -329,7 +331,7 @@ def _collect(tinycss2, css):
                         v = tinycss2.serialize(d.value).strip()
                         if d.important:
                             v += " !important"
-                        outd[(sel, d.name)] = v
+                        outd[(sel, d.name if d.name.startswith("--") else d.lower_name)] = v   # property names are ASCII case-insensitive
             elif n.type == "at-rule" and n.content:
                 rules(tinycss2.parse_rule_list(n.content, skip_whitespace=True, skip_comments=True))   # any depth
 
